@@ -18,6 +18,7 @@ import (
 	revresult "github.com/notaryproject/notation-core-go/revocation/result"
 	"github.com/notaryproject/notation-core-go/signature"
 	"github.com/notaryproject/notation-go"
+	pluginfw "github.com/notaryproject/notation-plugin-framework-go/plugin"
 	"github.com/notaryproject/notation-go/verifier"
 	"github.com/notaryproject/notation-go/verifier/trustpolicy"
 	"github.com/notaryproject/notation-go/verifier/truststore"
@@ -44,6 +45,10 @@ func c05Result(k int) revresult.Result {
 }
 
 var c05TSARoot, c05TSALeaf *Cert
+
+const c05PluginName = "c05plugin"
+
+var c05Plug *MockPlugin
 
 type c05Env struct {
 	chain  Chain
@@ -76,6 +81,11 @@ type c05Case struct {
 	Blob    bool `json:"via_verify_blob"` // this step goes through VerifyBlob under the blob statement of the SAME verifier (named like the OCI one)
 	Token   bool `json:"timestamp_token"` // the envelope carries a valid RFC 3161 countersignature (policy lists no tsa store)
 	Anchor  int  `json:"trust_anchor"`    // which certificate of the chain the trust store holds: 0 root, 1 middle, 2 leaf
+	// verification plugin: the envelope names plugin "c05plugin" in its critical extended attributes and the
+	// verifier's plugin manager has it installed with these capabilities (TI, Rev, Other); nil: no plugin named
+	PCaps  []string `json:"plugin_capabilities,omitempty"`
+	Plugin bool     `json:"names_verification_plugin"`
+	PRevOK bool     `json:"plugin_revocation_success"` // Success of the plugin's revocation verdict (trusted identity: always success)
 	// observation
 	Calls    []string `json:"obs_calls"`
 	Result   string   `json:"obs_result"`
@@ -119,7 +129,7 @@ func runC05(a *Args) error {
 	rng := NewRng(a.Seed)
 	prelude := "From NV Require Import Base C05_Model.\nOpen Scope string_scope.\n"
 	w := NewCaseWriter(a, "C05", prelude, "xcase", "xrun")
-	w.Rule = "every result vector over {OK,NonRevokable,Unknown,Revoked}^n (n=1..4 exhaustively; thorough adds n=5,6 exhaustively and random n<=12 with out-of-range result values) x action x validator interface x scheme x envelope format x presence of a timestamp countersignature in the unsigned attributes x position of the trust anchor in the chain (root / middle / leaf held by the listed store), plus validator errors (alone, and together with a complete result vector), answers outside the one-result-per-certificate contract without error (fewer results than certificates incl. (nil,nil) and an empty slice, more results, nil entries at every position: all must be inconclusive, none may pass or panic - a panic of Verify is recovered and recorded as an observation), per-certificate method annotations and server results with/without errors and nil server-result entries (printed into the input term; must neither panic nor change the verdict), the signing time of the signed attributes against the time value the validator receives, the library-default validator, and histories of 2-4 verifications on one verifier instance while the validator's answer changes; run through the real verifier.Verify. non-trivial = revocation not skipped and (some certificate not OK, or a validator error); distinct = distinct (vector, action, validators, scheme, format, error) tuples"
+	w.Rule = "every result vector over {OK,NonRevokable,Unknown,Revoked}^n (n=1..4 exhaustively; thorough adds n=5,6 exhaustively and random n<=12 with out-of-range result values) x action x validator interface x scheme x envelope format x presence of a timestamp countersignature in the unsigned attributes x position of the trust anchor in the chain (root / middle / leaf held by the listed store), plus validator errors (alone, and together with a complete result vector), answers outside the one-result-per-certificate contract without error (fewer results than certificates incl. (nil,nil) and an empty slice, more results, nil entries at every position: all must be inconclusive, none may pass or panic - a panic of Verify is recovered and recorded as an observation), per-certificate method annotations and server results with/without errors and nil server-result entries (printed into the input term; must neither panic nor change the verdict), the signing time of the signed attributes against the time value the validator receives, the library-default validator, signatures naming a verification plugin x the capabilities the installed plugin advertises (none / trusted identity / revocation / both) x validator answers x action x interface (notation's own check iff the level does not skip revocation and the plugin does not own it; otherwise the validator is not consulted and the plugin's verdict decides), and histories of 2-4 verifications on one verifier instance while the validator's answer changes; run through the real verifier.Verify. non-trivial = revocation not skipped and (some certificate not OK, or a validator error); distinct = distinct (vector, action, validators, scheme, format, error) tuples"
 	w.Assumptions = []string{
 		"the verifier whose two validator fields are both nil (x_val = 4 in the model) cannot be built through the public API and is not exercised",
 		"result classes are recognised from the error text of the revocation ValidationResult (\"is revoked\", \"revocation status is unknown\", \"unable to check revocation status\")",
@@ -293,6 +303,27 @@ func runC05(a *Args) error {
 			var script *RevScript
 			script, calls = NewRevScript(results, verr)
 			opts := verifier.VerifierOptions{OCITrustPolicy: doc}
+			if c.Plugin {
+				var caps []pluginfw.Capability
+				vr := map[pluginfw.Capability]*pluginfw.VerificationResult{}
+				for _, pc := range c.PCaps {
+					switch pc {
+					case "TI":
+						caps = append(caps, pluginfw.CapabilityTrustedIdentityVerifier)
+						vr[pluginfw.CapabilityTrustedIdentityVerifier] = &pluginfw.VerificationResult{Success: true}
+					case "Rev":
+						caps = append(caps, pluginfw.CapabilityRevocationCheckVerifier)
+						vr[pluginfw.CapabilityRevocationCheckVerifier] = &pluginfw.VerificationResult{Success: c.PRevOK, Reason: "mock plugin verdict"}
+					default:
+						caps = append(caps, pluginfw.CapabilitySignatureGenerator)
+					}
+				}
+				c05Plug = &MockPlugin{
+					Meta: &pluginfw.GetMetadataResponse{Name: c05PluginName, Version: "1.2.0", Capabilities: caps, Description: "d", URL: "u", SupportedContractVersions: []string{"1.0"}},
+					Resp: &pluginfw.VerifySignatureResponse{VerificationResults: vr},
+				}
+				opts.PluginManager = &MockManager{Plugins: map[string]*MockPlugin{c05PluginName: c05Plug}}
+			}
 			if c.hist != nil && c.hist.blobAction != "" {
 				// a blob statement with the SAME NAME as the OCI statement ("p") but another revocation action
 				bact := map[string]trustpolicy.ValidationAction{"Enforce": trustpolicy.ActionEnforce, "Log": trustpolicy.ActionLog, "Skip": trustpolicy.ActionSkip}[c.hist.blobAction]
@@ -326,6 +357,22 @@ func runC05(a *Args) error {
 			}
 		}
 		envBytes := e.env[c.Format+"|"+string(scheme)]
+		if c.Plugin {
+			key := c.Format + "|" + string(scheme) + "|plug"
+			if _, ok := e.env[key]; !ok {
+				b, err := SignEnvelope(EnvSpec{Format: c.Format, Chain: e.chain, Payload: PayloadFor(e.desc), Scheme: scheme, SigningTime: now.Add(-time.Hour),
+					ExtAttrs: []signature.Attribute{
+						{Key: "io.cncf.notary.verificationPlugin", Critical: true, Value: c05PluginName},
+						{Key: "io.cncf.notary.verificationPluginMinVersion", Critical: true, Value: "1.0.0"}}})
+				if err != nil {
+					panic(err)
+				}
+				e.env[key] = b
+				e.stime[key] = c05SigningTime(c.Format, b)
+			}
+			envBytes = e.env[key]
+			c.Token = false
+		}
 		if c.Token {
 			if b, ok := e.env[c.Format+"|"+string(scheme)+"|tok"]; ok {
 				envBytes = b
@@ -334,6 +381,9 @@ func runC05(a *Args) error {
 			}
 		}
 		c.Stime = e.stime[c.Format+"|"+string(scheme)]
+		if c.Plugin {
+			c.Stime = e.stime[c.Format+"|"+string(scheme)+"|plug"]
+		}
 		if c.Token {
 			c.Stime = e.stime[c.Format+"|"+string(scheme)+"|tok"]
 		}
@@ -384,6 +434,8 @@ func runC05(a *Args) error {
 					c.Result, resTerm = "Revoked:"+subj, CSome(CApp("Revoked", CStr(subj)))
 				case strings.Contains(msg, "revocation status is unknown"):
 					c.Result, resTerm = "Unknown:"+subj, CSome(CApp("Unknown", CStr(subj)))
+				case strings.Contains(msg, "revocation check by verification plugin"):
+					c.Result, resTerm = "PluginRejected", "(Some PluginRejected)"
 				default:
 					c.Result, resTerm = "Inconclusive", "(Some Inconclusive)"
 				}
@@ -391,11 +443,22 @@ func runC05(a *Args) error {
 		}
 		c.Rejected = verr2 != nil
 		// input
-		in := CApp("mk_xinput", c.Action, CBool(c.SA), CN(int64(c.Val)), c05OptZ(c.Stime), CStrList(e.subjs), CBool(c.VErr), CList(resTerms))
+		plugTerm := "None"
+		if c.Plugin {
+			var caps []string
+			for _, pc := range c.PCaps {
+				caps = append(caps, map[string]string{"TI": "PcapTI", "Rev": "PcapRev"}[pc])
+				if caps[len(caps)-1] == "" {
+					caps[len(caps)-1] = "PcapOther"
+				}
+			}
+			plugTerm = CSome(CApp("mk_xplugin", CList(caps), CBool(c.PRevOK)))
+		}
+		in := CApp("mk_xinput_p", c.Action, CBool(c.SA), CN(int64(c.Val)), c05OptZ(c.Stime), CStrList(e.subjs), CBool(c.VErr), CList(resTerms), plugTerm)
 		obs := CApp("mk_xobs", CList(callTerms), resTerm, CBool(c.Rejected), CBool(c.Panic != ""))
 		term := CApp("mk_xcase", CN(my), in, obs)
 		nontriv := c.Action != "Skip" && (c.VErr || hasNonOK(c.Vec) || !complete)
-		key := fmt.Sprintf("%v|%v|%v|%v|%v|%v|%v|%v|%v|%v|%v|%v", c.Vec, c.Action, c.Val, c.SA, c.Format, c.VErr, c.Level, c.Anchor, c.Step, c.Token, c.VErrRes, c.Blob) + fmt.Sprint(c.Ann, c.NilRes, c.Method, c.SrvErr, c.NilAt)
+		key := fmt.Sprintf("%v|%v|%v|%v|%v|%v|%v|%v|%v|%v|%v|%v", c.Vec, c.Action, c.Val, c.SA, c.Format, c.VErr, c.Level, c.Anchor, c.Step, c.Token, c.VErrRes, c.Blob) + fmt.Sprint(c.Ann, c.NilRes, c.Method, c.SrvErr, c.NilAt, c.Plugin, c.PCaps, c.PRevOK)
 		w.Add(my, term, c, key, nontriv)
 		w.Count("chain_len", fmt.Sprint(c.N))
 		w.Count("trust_anchor", []string{"root", "middle", "leaf"}[c.Anchor])
@@ -407,6 +470,11 @@ func runC05(a *Args) error {
 		w.Count("rejected", fmt.Sprint(c.Rejected))
 		w.Count("panicked", fmt.Sprint(c.Panic != ""))
 		w.Count("nil_entries", fmt.Sprint(len(c.NilAt) > 0))
+		if c.Plugin {
+			w.Count("plugin_capabilities", fmt.Sprint(c.PCaps))
+		} else {
+			w.Count("plugin_capabilities", "no plugin named")
+		}
 		w.Count("results_vs_chain", map[bool]string{true: "error", false: map[int]string{-1: "fewer", 0: "equal", 1: "more"}[sign(len(results)-c.N)]}[c.VErr])
 	}
 
@@ -704,6 +772,46 @@ func runC05(a *Args) error {
 						ann[o].Servers = append(ann[o].Servers, [2]int{-1, 0})
 					}
 					runCase(&c05Case{N: n, Format: Pick(rng, formats), SA: rng.Bool(), Action: act, Level: Pick(rng, levels), Val: 1 + rng.Intn(3), Vec: v, Ann: ann, Anchor: rng.Intn(3)})
+				}
+			}
+		}
+	}
+	// 11. signatures that name a verification plugin: installed plugin capabilities {none (only a non-verification one),
+	// TI only, Rev only, both (either order), each with and without an extra non-verification capability} x validator
+	// answers {all OK, revoked at each position, unknown, validator error, incomplete (short vector / nil entry)} x action
+	// x both validator interfaces x the plugin's own revocation verdict. Notation's own check - validator consulted with
+	// the whole chain, answer aggregated - must happen iff the level does not skip revocation and the plugin does not
+	// advertise the revocation capability; otherwise the validator must not be consulted and the plugin's verdict decides
+	capSets := [][]string{{"Other"}, {}, {"TI"}, {"Other", "TI"}, {"Rev"}, {"Rev", "Other"}, {"TI", "Rev"}, {"Rev", "TI"}}
+	for n := 1; n <= 3; n++ {
+		type ans struct {
+			vec   []int
+			verr  bool
+			nilAt []int
+		}
+		var answers []ans
+		answers = append(answers, ans{vec: make([]int, n)})
+		for pos := 0; pos < n; pos++ {
+			v := make([]int, n)
+			v[pos] = 3
+			answers = append(answers, ans{vec: v})
+		}
+		u := make([]int, n)
+		u[rng.Intn(n)] = 2
+		answers = append(answers, ans{vec: u}, ans{vec: make([]int, n), verr: true}, ans{vec: make([]int, n-1)}, ans{vec: make([]int, n), nilAt: []int{rng.Intn(n)}})
+		for ci, caps := range capSets {
+			if n != 2 && ci%2 == 1 {
+				continue // the variants with an extra capability / the other order only for chains of two
+			}
+			for _, an := range answers {
+				for _, act := range actions {
+					for _, val := range []int{1, 2} {
+						if n != 2 && val == 2 && rng.Intn(2) == 0 {
+							val = 3
+						}
+						runCase(&c05Case{N: n, Format: Pick(rng, formats), SA: rng.Bool(), Action: act, Level: Pick(rng, levels), Val: val, Vec: an.vec, VErr: an.verr, NilAt: an.nilAt,
+							Anchor: rng.Intn(3), Plugin: true, PCaps: caps, PRevOK: rng.Intn(3) != 0})
+					}
 				}
 			}
 		}
